@@ -112,3 +112,45 @@ package graphql
 //@   at[C20,C06] call resolveFn: assert fresh(arg0.Args) || fp.args.hasVariables
 //@   ensures[C04] resolveFnError != nil ==> result == nil
 //@   ensures[C04] ok
+
+// ---- planned execution walk (C01, C04, C13, C20) ------------------------------------
+
+//@ func Schema.IsPossibleType
+//@   trusted
+//@   functional
+
+//@ func Plan.abstractAlternative
+//@   trusted
+//@   assigns nothing
+
+//@ func executePlannedSelection
+//@   props C20 C13 C01
+//@   nosafety
+//@   requires eCtx != nil
+//@   at[C20] call resolvePlannedField: assert arg0 == eCtx && arg1 == parentType && arg3 == fp
+//@   at[C20] call resolvePlannedField: assert source != nil ==> arg2 == source
+//@   at[C20] call resolvePlannedField: assert arg4 != nil && arg4.Prev == path && typeis(arg4.Key, "string") && strval(arg4.Key) == fp.responseKey
+//@   at[C01] call resolvePlannedField: assert fp.fieldDef != nil
+
+//@ func completePlannedListValue
+//@   props C20 C18 C04
+//@   nosafety
+//@   requires eCtx != nil && returnType != nil
+//@   at[C20,C18] call completePlannedValueCatchingError: assert arg4 != nil && arg4.Prev == path && typeis(arg4.Key, "int") && intval(arg4.Key) == i
+//@   at[C20] call completePlannedValueCatchingError: assert arg0 == eCtx && arg1 == returnType.OfType && arg2 == fp
+
+//@ func completePlannedObjectValue
+//@   props C20 C04
+//@   nosafety
+//@   requires eCtx != nil && returnType != nil
+//@   at[C20] call IsTypeOf: assert arg0.Value == result && arg0.Context == eCtx.Context
+//@   at[C20] call executePlannedSelection: assert arg0 == eCtx && arg1 == fp.sub && arg2 == result && arg3 == returnType && arg4 == path
+
+//@ func completePlannedAbstractValue
+//@   props C20 C04 C01
+//@   nosafety
+//@   requires eCtx != nil
+//@   at[C20] call ResolveType: assert arg0.Value == result && arg0.Context == eCtx.Context
+//@   at[C20] call defaultResolveTypeFn: assert arg0.Value == result && arg0.Context == eCtx.Context && arg1 == returnType
+//@   at[C20,C01] call executePlannedSelection: assert arg0 == eCtx && arg2 == result && arg3 == runtimeType && arg4 == path && arg3 != nil
+//@   at[C04] call executePlannedSelection: assert IsPossibleType_0(eCtx.Schema, returnType, runtimeType)
